@@ -62,10 +62,14 @@ func (o *ExtP2Claims) Validate() error {
 	return psatoken.FilterError(o.GetTimestamp())
 }
 
-func (o ExtP2Claims) MarshalCBOR() ([]byte, error)     { return encoding.SerializeStructToCBOR(hem, &o) }
-func (o *ExtP2Claims) UnmarshalCBOR(data []byte) error { return encoding.PopulateStructFromCBOR(hdm, data, o) }
-func (o ExtP2Claims) MarshalJSON() ([]byte, error)     { return encoding.SerializeStructToJSON(&o) }
-func (o *ExtP2Claims) UnmarshalJSON(data []byte) error { return encoding.PopulateStructFromJSON(data, o) }
+func (o ExtP2Claims) MarshalCBOR() ([]byte, error) { return encoding.SerializeStructToCBOR(hem, &o) }
+func (o *ExtP2Claims) UnmarshalCBOR(data []byte) error {
+	return encoding.PopulateStructFromCBOR(hdm, data, o)
+}
+func (o ExtP2Claims) MarshalJSON() ([]byte, error) { return encoding.SerializeStructToJSON(&o) }
+func (o *ExtP2Claims) UnmarshalJSON(data []byte) error {
+	return encoding.PopulateStructFromJSON(data, o)
+}
 
 func newExtP2Claims() psatoken.IClaims { return newExtP2ClaimsNamed(ExtP2Name) }
 
@@ -116,14 +120,18 @@ func (o ExtP1Claims) MarshalCBOR() ([]byte, error) {
 	}
 	return encoding.SerializeStructToCBOR(hem, &o)
 }
-func (o *ExtP1Claims) UnmarshalCBOR(data []byte) error { return encoding.PopulateStructFromCBOR(hdm, data, o) }
+func (o *ExtP1Claims) UnmarshalCBOR(data []byte) error {
+	return encoding.PopulateStructFromCBOR(hdm, data, o)
+}
 func (o ExtP1Claims) MarshalJSON() ([]byte, error) {
 	if o.SwComponents != nil && o.SwComponents.IsEmpty() {
 		o.SwComponents = nil
 	}
 	return encoding.SerializeStructToJSON(&o)
 }
-func (o *ExtP1Claims) UnmarshalJSON(data []byte) error { return encoding.PopulateStructFromJSON(data, o) }
+func (o *ExtP1Claims) UnmarshalJSON(data []byte) error {
+	return encoding.PopulateStructFromJSON(data, o)
+}
 
 func newExtP1Claims() psatoken.IClaims { return newExtP1ClaimsNamed(ExtP1Name) }
 
@@ -172,10 +180,14 @@ type OwnTagClaims struct {
 
 func (o *OwnTagClaims) Validate() error { return psatoken.ValidateClaims(o) }
 
-func (o OwnTagClaims) MarshalCBOR() ([]byte, error)     { return encoding.SerializeStructToCBOR(hem, &o) }
-func (o *OwnTagClaims) UnmarshalCBOR(data []byte) error { return encoding.PopulateStructFromCBOR(hdm, data, o) }
-func (o OwnTagClaims) MarshalJSON() ([]byte, error)     { return encoding.SerializeStructToJSON(&o) }
-func (o *OwnTagClaims) UnmarshalJSON(data []byte) error { return encoding.PopulateStructFromJSON(data, o) }
+func (o OwnTagClaims) MarshalCBOR() ([]byte, error) { return encoding.SerializeStructToCBOR(hem, &o) }
+func (o *OwnTagClaims) UnmarshalCBOR(data []byte) error {
+	return encoding.PopulateStructFromCBOR(hdm, data, o)
+}
+func (o OwnTagClaims) MarshalJSON() ([]byte, error) { return encoding.SerializeStructToJSON(&o) }
+func (o *OwnTagClaims) UnmarshalJSON(data []byte) error {
+	return encoding.PopulateStructFromJSON(data, o)
+}
 
 func newOwnTagClaims() psatoken.IClaims { return newOwnTagClaimsNamed(OwnTagName) }
 
